@@ -575,7 +575,17 @@ def trace_campaign(run, pid, tier, modes=(0,), periodic=False):
 # =====================================================================================================
 # C03 / C15: task executors under the mock runtime, TaskRuntime.tla on the recorded graphs
 # =====================================================================================================
-def omp_campaign(run, name, consts, tier, variant="plain", graphs=24, max_graph_tasks=40, schedules=None, limit=None, cap=64):
+def task_replay_binary(dim, periodic, cap=64, variant="plain", runtime="omp"):
+    """replay_omp.cpp built for the OpenMP executors (GOMP ABI mock) or for the Specx executors (mock Legacy/SpRuntime.hpp)."""
+    defs = ["DIMV=%d" % dim, "PERIODICV=%d" % int(periodic), "CAPV=%d" % cap]
+    extra = ()
+    if runtime == "specx":
+        defs.append("RUNTIMEV=1")
+        extra = ("-I" + os.path.join(vlib.HARNESS, "mock_specx"),)
+    return build("replay_%s_%d_%d_%d%s" % (runtime, dim, int(periodic), cap, "_asan" if variant == "asan" else ""), "replay_omp.cpp", defs, variant=variant, extra=extra)
+
+
+def omp_campaign(run, name, consts, tier, variant="plain", graphs=24, max_graph_tasks=40, schedules=None, limit=None, cap=64, runtime="omp"):
     """TLC (Fmm.tla) generates the scenarios; replay_omp runs the OpenMP executors under the mock runtime on each of them with a
     list of schedules, compares with the sequential executor, evaluates Covered on the recorded graph and writes graphs for TLC."""
     res = tlc_sharded("Fmm", consts, FMM_INVS, ["WriteSets"], 8, 1, 1500, name)
@@ -586,8 +596,7 @@ def omp_campaign(run, name, consts, tier, variant="plain", graphs=24, max_graph_
     scn = [r for r in res.lines if r.get("k") == "scn"]
     if limit:
         scn = sorted(scn, key=lambda r: -len(r["sparts"]))[:limit]
-    binp = need(build("replay_omp_%d_%d_%d%s" % (consts["Dim"], int(consts["Periodic"]), cap, "_asan" if variant == "asan" else ""), "replay_omp.cpp",
-                      ["DIMV=%d" % consts["Dim"], "PERIODICV=%d" % int(consts["Periodic"]), "CAPV=%d" % cap], variant=variant), run)
+    binp = need(task_replay_binary(consts["Dim"], consts["Periodic"], cap, variant, runtime), run)
     pool = sorted(consts["Pool"])
     recs = [fmm_record(r, pool, (i + run.seed) % NVARIANTS) for i, r in enumerate(scn)]
     nchunks = max(1, min(vlib.NCPU, len(recs) // 40))
@@ -710,7 +719,7 @@ def check_c03(run):
                 sub = [(r, line) for r, line in pairs if re.sub(r"^", "", scenario_key(r, line)) in keys]
                 if sub:
                     # spec -> code: run the schedules TLC found through the mock runtime
-                    binp = need(build("replay_omp_%d_%d_64" % (consts["Dim"], int(consts["Periodic"])), "replay_omp.cpp", ["DIMV=%d" % consts["Dim"], "PERIODICV=%d" % int(consts["Periodic"]), "CAPV=64"]), run)
+                    binp = need(task_replay_binary(consts["Dim"], consts["Periodic"]), run)
                     rc, out, err = run_bin(binp, [], stdin_text="\n".join(l for _, l in sub) + "\n", env={"VERIF_SCHEDULES": spath}, timeout=900)
                     m2, summary = parse_harness_output(out)
                     if "HARNESS-ERROR" in out:
@@ -718,6 +727,15 @@ def check_c03(run):
                     nrep = sum(int(l.split("=")[1]) for l in out.splitlines() if l.startswith("INFO tlcSchedulesReplayed="))
                     run.coverage["tlc_schedules_replayed"] = run.coverage.get("tlc_schedules_replayed", 0) + nrep
                     report_mismatches(run, "C03", "C03-" + name, sub, [(k, re.sub(r"-(immediate|deferred|tlc)-.*$", "", key), "%s [%s]" % (t, key)) for k, key, t in m2], C03_KINDS)
+    # the Specx executors through an API-compatible mock of Legacy/SpRuntime.hpp feeding the same scheduler core
+    for name, consts in ([("specx-1d-h5", fmm_constants(1, 5, POOL_1D_H5[:7], bss=(1, 2, 3, 20))), ("specx-3d-h4", fmm_constants(3, 4, POOL_3D_H4[:5], bss=(1, 2, 20))),
+                          ("specx-tsm-1d-h5", fmm_constants(1, 5, POOL_1D_H5[:4], mode="tsm", bss=(1, 2, 20)))]
+                         + ([] if run.tier == "quick" else [("specx-2d-h4", fmm_constants(2, 4, POOL_2D_H4[:7], bss=(1, 2, 3, 20), hists=("full", "stages3"))),
+                                                             ("specx-tsm-2d-h4", fmm_constants(2, 4, POOL_2D_H4[:4], mode="tsm", bss=(1, 2)))])):
+        pairs, mism, gall = omp_campaign(run, "C03-" + name, consts, run.tier, runtime="specx", graphs=8)
+        report_mismatches(run, "C03", "C03-" + name, pairs, [(k, re.sub(r"-(immediate|deferred|tlc)-.*$", "", key), "%s [%s]" % (t, key)) for k, key, t in mism], C03_KINDS)
+        if gall:
+            taskruntime_on(run, "C03-" + name + "-graphs", gall, run.tier, pairs)
     # code -> spec: kernel-call traces of the OpenMP executors under seeded random schedules must respect the dataflow guards of Fmm.tla
     trace_campaign(run, "C03", run.tier, modes=(0, 1))
     # lifetime of captured variables: the same schedules on the AddressSanitizer build (detect_stack_use_after_return)
@@ -730,7 +748,7 @@ def check_c03(run):
                             "group buffers, actual accesses from the kernel callbacks) must satisfy Covered; a sample of graphs is explored by TLC (TaskRuntime.tla: NoRace, AllDone, "
                             "Covered => NoRace over all interleavings) and TLC's schedules are replayed through the mock runtime; an AddressSanitizer build repeats a subset")
     run.assumptions += FMM_ASSUME[:1] + ["the mock runtime implements the OpenMP dependence rules (its run orders are validated by TLC against TaskRuntime.tla); schedules are executed one task at a time, which is sound for result equality only together with NoRace/Covered on actual accesses",
-                                         "GCC 12 defines _OPENMP=201511, so `commute` expands to inout; Specx and StarPU executors are not covered by this check (see DESIGN.md)"]
+                                         "GCC 12 defines _OPENMP=201511, so `commute` expands to inout; the Specx executors run through an API-compatible mock of Legacy/SpRuntime.hpp (SpCommutativeWrite = mutual exclusion); StarPU executors are not covered (see DESIGN.md)"]
 
 
 @check("C09", "model_checking")
